@@ -95,15 +95,15 @@ func (e *effEdge) Key() string {
 func (e *effEdge) OpTerms() string { return fmt.Sprintf("%s{%s}", e.Op, termsKey(e.Terms)) }
 
 type effects struct {
-	c       *Ctx
-	raw     []*effEdge
-	Edges   []*effEdge            // after carrier expansion
-	ByNode  map[string][]*effEdge // expanded, by target
-	BySite  map[ssa.Instruction]*effEdge
+	c      *Ctx
+	raw    []*effEdge
+	Edges  []*effEdge            // after carrier expansion
+	ByNode map[string][]*effEdge // expanded, by target
+	BySite map[ssa.Instruction]*effEdge
 	// AllBySite: every alternative edge of a site
 	AllBySite map[ssa.Instruction][]*effEdge
 	carrier   map[string]bool
-	real    map[string]bool
+	real      map[string]bool
 }
 
 var sizesPrefix = map[string]string{"HistorySize": "H", "TreeSize": "T", "CommitSize": "C"}
@@ -112,13 +112,13 @@ func nodeOfField(fi fieldInfo) string {
 	if fi.Struct != nil && fi.Struct.Obj().Pkg() != nil {
 		pkg := fi.Struct.Obj().Pkg().Path()
 		if pkg == modPath+"/sizes" && fi.Tag != "" {
-			if p, ok := sizesPrefix[fi.Struct.Obj().Name()]; ok {
+			if p, ok := sizesPrefix[tname(fi.Struct.Obj())]; ok {
 				return p + ":" + fi.Tag
 			}
 		}
-		return "F:" + shortPkg(pkg) + "." + fi.Struct.Obj().Name() + "." + fi.Var.Name()
+		return "F:" + shortPkg(pkg) + "." + tname(fi.Struct.Obj()) + "." + vname(fi.Var)
 	}
-	return "F:anon." + fi.Var.Name()
+	return "F:anon." + vname(fi.Var)
 }
 
 // isAPINode: exported field of an exported type of package git, or a
@@ -129,10 +129,10 @@ func isAPINode(fi fieldInfo) bool {
 	}
 	pkg := fi.Struct.Obj().Pkg().Path()
 	if pkg == modPath+"/sizes" && fi.Tag != "" {
-		_, ok := sizesPrefix[fi.Struct.Obj().Name()]
+		_, ok := sizesPrefix[tname(fi.Struct.Obj())]
 		return ok
 	}
-	return pkg == modPath+"/git" && fi.Struct.Obj().Exported() && fi.Var.Exported()
+	return pkg == modPath+"/git" && token.IsExported(tname(fi.Struct.Obj())) && token.IsExported(vname(fi.Var))
 }
 
 func trackedType(t types.Type) bool {
@@ -244,7 +244,7 @@ func (e *effects) extract() {
 					var ts []*term
 					// x = x.Plus(v)  → ADD ;  x = append(x, v) → APPEND
 					if call, ok := x.Val.(*ssa.Call); ok {
-						if cal := call.Call.StaticCallee(); cal != nil && pkgOf(cal) == countsPkg && cal.Name() == "Plus" {
+						if cal := call.Call.StaticCallee(); cal != nil && pkgOf(cal) == countsPkg && refName(cal) == "Plus" {
 							for i, a := range call.Call.Args {
 								if e.loadsNode(a, tgt) {
 									op = "ADD"
@@ -416,7 +416,7 @@ func (e *effects) terms(v ssa.Value, depth int, seen map[ssa.Value]bool, m marks
 					}
 					return out
 				}
-				return []*term{atom(fmt.Sprintf("call:%s#%d@%s", cal.String(), x.Index, fn))}
+				return []*term{atom(fmt.Sprintf("call:%s#%d@%s", refQ(cal), x.Index, fn))}
 			}
 			return []*term{atom(fmt.Sprintf("call:%s#%d@%s", calleeQ(&call.Call), x.Index, fn))}
 		}
